@@ -7,7 +7,10 @@ package main
 // evidence); the proof part of C18 is coq/Props/C18.v.
 
 import (
+	"bytes"
 	"context"
+	"io"
+	"net/http"
 	"crypto/ed25519"
 	"crypto/sha256"
 	"encoding/base64"
@@ -541,6 +544,25 @@ func init() {
 		_ = gmsl.ReverseTopologicalOrdering(evs, gmsl.TopologicalOrderByAuthEvents)
 		return args, np
 	})
+	// [header1; header2; ...; body]: VerifyHTTPRequest on a request with the given Authorization
+	// headers (all X-Matrix variants, repeated, case variants of the origin)
+	RegisterImpl("C18.http", func(args [][]byte) ([][]byte, []byte) {
+		body := args[len(args)-1]
+		req, err := http.NewRequest("PUT", "http://dest.example/_matrix/federation/v1/send/1", bytes.NewReader(body))
+		if err != nil {
+			return args, np
+		}
+		req.RequestURI = "/_matrix/federation/v1/send/1"
+		req.Header.Set("Content-Type", "application/json")
+		for _, h := range args[:len(args)-1] {
+			req.Header.Add("Authorization", string(h))
+		}
+		for _, v := range []c18Verifier{{true}, {false}} {
+			req.Body = io.NopCloser(bytes.NewReader(body))
+			_, _ = fclient.VerifyHTTPRequest(req, time.Now(), "dest.example", func(spec.ServerName) bool { return true }, v)
+		}
+		return args, np
+	})
 	RegisterProp("C18", genC18)
 }
 
@@ -674,6 +696,48 @@ func genC18(c *Ctx) {
 			}
 			c.Run("C18.group", args, "C18.nopanic", "", "hostile group")
 			c.Count("group/" + string(v))
+		}
+	}
+	// every \uXXXX escape of one UTF-16 code unit class, alone and in pairs, as a JSON string and as a key
+	for cu := 0; cu < 0x100; cu++ {
+		e := fmt.Sprintf("\\u%04x", cu)
+		for _, t := range []string{`"` + e + `"`, `{"` + e + `":1}`, `["a` + e + `b"]`, `"` + strings.ToUpper(e[:2]) + e[2:] + `"`} {
+			c.Run("C18.bytes", [][]byte{B(t)}, "C18.nopanic", "", "unicode escape")
+		}
+		c.Count("unicode-escapes")
+	}
+	for _, cu := range []int{0x7ff, 0x800, 0xd7ff, 0xd800, 0xdbff, 0xdc00, 0xdfff, 0xe000, 0xfffd, 0xffff} {
+		for _, cu2 := range []int{0x20, 0xd800, 0xdc00, 0xdfff, 0xe000} {
+			e := fmt.Sprintf(`"\u%04x\u%04x"`, cu, cu2)
+			c.Run("C18.bytes", [][]byte{B(e)}, "C18.nopanic", "", "unicode escape pair")
+			c.Run("C18.bytes", [][]byte{B(e[:len(e)-3])}, "C18.nopanic", "", "unicode escape pair truncated")
+		}
+	}
+	// Authorization header sets
+	hdr := func(origin, dest, key, sig string) string {
+		return fmt.Sprintf(`X-Matrix origin="%s",destination="%s",key="%s",sig="%s"`, origin, dest, key, sig)
+	}
+	sig64 := strings.Repeat("A", 86)
+	origins := []string{"remote.example", "Remote.example", "REMOTE.EXAMPLE", "other.example", "", "remote.example:8448", "[::1]", "bad name", "remote.example."}
+	var hsets [][]string
+	for _, o1 := range origins {
+		hsets = append(hsets, []string{hdr(o1, "dest.example", "ed25519:1", sig64)})
+		for _, o2 := range origins {
+			hsets = append(hsets, []string{hdr(o1, "dest.example", "ed25519:1", sig64), hdr(o2, "dest.example", "ed25519:2", sig64)})
+		}
+	}
+	hsets = append(hsets, []string{"X-Matrix"}, []string{"X-Matrix "}, []string{"Bearer x"}, []string{""}, []string{hdr("a", "", "", "")},
+		[]string{`X-Matrix origin=remote.example,key=ed25519:1,sig=` + sig64}, []string{hdr("remote.example", "dest.example", "ed25519:1", "!!!")},
+		[]string{hdr("remote.example", "dest.example", "ed25519:1", sig64), hdr("remote.example", "dest.example", "ed25519:1", sig64), hdr("REMOTE.example", "x", "ed25519:1", sig64)})
+	for _, hs := range hsets {
+		for _, body := range []string{`{"a":1}`, ``, `[1]`, `nul`, "\xff"} {
+			args := [][]byte{}
+			for _, h := range hs {
+				args = append(args, B(h))
+			}
+			args = append(args, B(body))
+			c.Run("C18.http", args, "C18.nopanic", "", "authorization headers")
+			c.Count("http")
 		}
 	}
 	// 3. byte-level
